@@ -108,6 +108,8 @@ fn main() {
         #[cfg(feature = "compiler")]
         "testrun" => incan_verif_kani::tcreplay::testrun_main(&args[2..]),
         #[cfg(feature = "compiler")]
+        "scanflags" => incan_verif_kani::tcreplay::scanflags_main(&args[2..]),
+        #[cfg(feature = "compiler")]
         "fmtcli" => incan_verif_kani::tcreplay::fmtcli_main(&args[2..]),
         #[cfg(feature = "compiler")]
         "fmtrt" => incan_verif_kani::tcreplay::fmtrt_main(&args[2..]),
